@@ -14,13 +14,14 @@ use crate::run::{finish, preflight, Ctx, Report, Tally, Tier};
 const PLACEHOLDER: &str = "5167504c414345484f4c4445525f5349475f5f5f5f5f5f5f5f5f5f5f5f5f5f5f";
 const BAD_SIG: &str = "00000000000000000000000000000000ffffffffffffffffffffffffffffffff";
 
-pub const INPUTS: [&str; 20] = [
+pub const INPUTS: [&str; 21] = [
     "authorization-header",
     "credential-in-header",
     "signedheaders-in-header",
     "signature-in-header",
     "x-amz-date-header",
     "date-alongside-x-amz-date",
+    "date-header-only",
     "token-header",
     "q-algorithm",
     "q-credential",
@@ -39,8 +40,57 @@ pub const INPUTS: [&str; 20] = [
     "qb-token",
 ];
 
+/// A name that starts with U+0001 is written with needless escapes (`%58-Amz%2DDate`): the same parameter, spelled differently.
 fn plain_query(pairs: &[(String, String)]) -> Vec<u8> {
-    pairs.iter().map(|(n, v)| format!("{}={}", pct_encode(n.as_bytes()), pct_encode(v.as_bytes()))).collect::<Vec<_>>().join("&").into_bytes()
+    pairs
+        .iter()
+        .map(|(n, v)| {
+            let name = match n.strip_prefix('\u{1}') {
+                Some(rest) => {
+                    let mut out = String::new();
+                    for (i, ch) in rest.chars().enumerate() {
+                        if i == 0 || (ch == '-' && i > 5) {
+                            out.push_str(&format!("%{:02X}", ch as u32));
+                        } else {
+                            out.push(ch);
+                        }
+                    }
+                    out
+                }
+                None => pct_encode(n.as_bytes()),
+            };
+            format!("{}={}", name, pct_encode(v.as_bytes()))
+        })
+        .collect::<Vec<_>>()
+        .join("&")
+        .into_bytes()
+}
+
+/// A random order of the parameters in which the occurrences of each name keep their relative order; now and then one
+/// occurrence of a repeated X-Amz-* name is re-spelled with needless escapes.
+fn stable_interleave(r: &mut Rng, url: &mut Vec<(String, String)>) {
+    let n = url.len();
+    let mut idx: Vec<usize> = (0..n).collect();
+    r.shuffle(&mut idx);
+    let shuffled: Vec<(String, String)> = idx.iter().map(|i| url[*i].clone()).collect();
+    let mut out = shuffled.clone();
+    let mut names: Vec<String> = url.iter().map(|p| p.0.clone()).collect();
+    names.sort();
+    names.dedup();
+    for name in names {
+        let originals: Vec<(String, String)> = url.iter().filter(|p| p.0 == name).cloned().collect();
+        let slots: Vec<usize> = (0..n).filter(|i| shuffled[*i].0 == name).collect();
+        for (slot, orig) in slots.iter().zip(originals) {
+            out[*slot] = orig;
+        }
+    }
+    for i in 0..n {
+        let repeated = out.iter().filter(|p| p.0 == out[i].0).count() > 1;
+        if repeated && out[i].0.starts_with("X-Amz-") && r.chance(1, 4) {
+            out[i].0 = format!("\u{1}{}", out[i].0);
+        }
+    }
+    *url = out;
 }
 
 struct Ctxt {
@@ -111,6 +161,8 @@ fn build(input: &str, copies: usize, k: usize, r: &mut Rng, c: &Ctxt) -> Option<
                         "Credential={}",
                         if i == k {
                             good_cred.clone()
+                        } else if r.chance(1, 5) {
+                            String::new()
                         } else if i % 2 == 0 {
                             c.cred(&c.ak, t_good, "xx-wrong-1")
                         } else {
@@ -121,6 +173,8 @@ fn build(input: &str, copies: usize, k: usize, r: &mut Rng, c: &Ctxt) -> Option<
                         "SignedHeaders={}",
                         if i == k {
                             signed.join(";")
+                        } else if r.chance(1, 5) {
+                            String::new()
                         } else if i % 2 == 0 {
                             alt_signed.join(";")
                         } else {
@@ -131,6 +185,8 @@ fn build(input: &str, copies: usize, k: usize, r: &mut Rng, c: &Ctxt) -> Option<
                         "Signature={}",
                         if i == k {
                             PLACEHOLDER
+                        } else if r.chance(1, 5) {
+                            ""
                         } else {
                             BAD_SIG
                         }
@@ -188,8 +244,43 @@ fn build(input: &str, copies: usize, k: usize, r: &mut Rng, c: &Ctxt) -> Option<
             headers.push((b"authorization".to_vec(), auth(&good_cred, &signed, PLACEHOLDER).into_bytes()));
             documented = 0;
         }
+        "date-header-only" => {
+            // no X-Amz-Date at all: the first Date header is the timestamp
+            if r.coin() {
+                signed.push("date".into());
+                signed.sort();
+            }
+            eff_signed = signed.clone();
+            for i in 0..copies {
+                let v: Vec<u8> = if i == k {
+                    t_good.compact().into_bytes()
+                } else {
+                    match r.below(4) {
+                        0 => Vec::new(),
+                        1 => b"  ".to_vec(),
+                        _ => t_other.plus_s(i as i64).compact().into_bytes(),
+                    }
+                };
+                headers.push((b"date".to_vec(), v));
+            }
+            headers.push((b"authorization".to_vec(), auth(&good_cred, &signed, PLACEHOLDER).into_bytes()));
+            documented = 0;
+        }
         "date-alongside-x-amz-date" => {
-            // k = 0: the signature is computed for the X-Amz-Date value; k = 1: for the Date value
+            // k = 0: the signature is computed for the X-Amz-Date value; k = 1: for the Date value; either header may be
+            // listed in SignedHeaders (that does not change which one is the timestamp)
+            if copies == 2 {
+                match r.below(4) {
+                    0 => signed.push("date".into()),
+                    1 => signed.push("x-amz-date".into()),
+                    2 => {
+                        signed.push("date".into());
+                        signed.push("x-amz-date".into());
+                    }
+                    _ => {}
+                }
+                signed.sort();
+            }
             eff_signed = signed.clone();
             let (tx, td) = if k == 0 {
                 (t_good, t_other)
@@ -246,10 +337,12 @@ fn build(input: &str, copies: usize, k: usize, r: &mut Rng, c: &Ctxt) -> Option<
             headers.push((b"x-extra".to_vec(), b"v".to_vec()));
             eff_signed = signed.clone();
             let alt_signed = vec!["host".to_string(), "x-extra".to_string()];
+            // (a losing copy may also be empty: an empty first value is still the first value)
+            let empties: Vec<bool> = (0..copies).map(|_| r.chance(1, 5)).collect();
             let one = |name: &str, good: String, bad: &dyn Fn(usize) -> String, url: &mut Vec<(String, String)>, dup: bool| {
                 if dup {
                     for i in 0..copies {
-                        url.push((name.to_string(), if i == k { good.clone() } else { bad(i) }));
+                        url.push((name.to_string(), if i == k { good.clone() } else if empties[i] { String::new() } else { bad(i) }));
                     }
                 } else {
                     url.push((name.to_string(), good));
@@ -260,16 +353,25 @@ fn build(input: &str, copies: usize, k: usize, r: &mut Rng, c: &Ctxt) -> Option<
             one("X-Amz-Date", t_good.compact(), &|i| t_other.plus_s(i as i64).compact(), &mut url, input == "q-date");
             one("X-Amz-SignedHeaders", signed.join(";"), &|_| alt_signed.join(";"), &mut url, input == "q-signedheaders");
             if input == "q-token" {
-                for _ in 0..copies {
-                    url.push(("X-Amz-Security-Token".into(), gen_token(r)));
+                for i in 0..copies {
+                    // (a blank first token is still the first)
+                    let tok = if i == 0 && r.chance(1, 4) {
+                        String::new()
+                    } else {
+                        gen_token(r)
+                    };
+                    url.push(("X-Amz-Security-Token".into(), tok));
                 }
                 if k != 0 {
                     return None;
                 }
             }
             one("X-Amz-Signature", PLACEHOLDER.into(), &|_| BAD_SIG.into(), &mut url, input == "q-signature");
-            // unrelated parameters around, and a shuffle that keeps the relative order of equal names
+            // unrelated parameters around, then an order that keeps the relative order of equal names (copies separated by
+            // other parameters, before or after the signature), some copies' names spelled with needless escapes
             url.push(("z".into(), "last".into()));
+            url.push(("m".into(), "mid".into()));
+            stable_interleave(r, &mut url);
             documented = 0;
         }
         "qb-algorithm" | "qb-credential" | "qb-date" | "qb-signedheaders" | "qb-signature" | "qb-token" => {
@@ -279,20 +381,29 @@ fn build(input: &str, copies: usize, k: usize, r: &mut Rng, c: &Ctxt) -> Option<
             eff_signed = signed.clone();
             let alt_signed = vec!["host".to_string(), "x-extra".to_string()];
             let mut form: Vec<(String, String)> = Vec::new();
+            // the first copy travels in the URL, or — the browser-style presigned POST — everything travels in the body, where
+            // the order of the copies inside the body decides
+            let first_in_url = r.coin();
+            let others_in_body = !first_in_url && r.coin();
+            let empties: Vec<bool> = (0..copies).map(|_| r.chance(1, 6)).collect();
             let mut one = |name: &str, good: String, bad: &dyn Fn(usize) -> String, url: &mut Vec<(String, String)>, dup: bool| {
                 if dup {
                     for i in 0..copies {
                         let v = if i == k {
                             good.clone()
+                        } else if empties[i] {
+                            String::new()
                         } else {
                             bad(i)
                         };
-                        if i == 0 {
+                        if i == 0 && first_in_url {
                             url.push((name.to_string(), v));
                         } else {
                             form.push((name.to_string(), v));
                         }
                     }
+                } else if others_in_body {
+                    form.push((name.to_string(), good));
                 } else {
                     url.push((name.to_string(), good));
                 }
@@ -303,7 +414,11 @@ fn build(input: &str, copies: usize, k: usize, r: &mut Rng, c: &Ctxt) -> Option<
             one("X-Amz-SignedHeaders", signed.join(";"), &|_| alt_signed.join(";"), &mut url, input == "qb-signedheaders");
             one("X-Amz-Signature", PLACEHOLDER.into(), &|_| BAD_SIG.into(), &mut url, input == "qb-signature");
             if input == "qb-token" {
-                url.push(("X-Amz-Security-Token".into(), gen_token(r)));
+                if first_in_url {
+                    url.push(("X-Amz-Security-Token".into(), gen_token(r)));
+                } else {
+                    form.push(("X-Amz-Security-Token".into(), gen_token(r)));
+                }
                 for _ in 1..copies {
                     form.push(("X-Amz-Security-Token".into(), gen_token(r)));
                 }
@@ -334,8 +449,8 @@ fn build(input: &str, copies: usize, k: usize, r: &mut Rng, c: &Ctxt) -> Option<
             eff_signed = signed.clone();
             match k {
                 0 => {
-                    // header side valid, X-Amz-Algorithm in URL
-                    url.push(("X-Amz-Algorithm".into(), "AWS4-HMAC-SHA256".into()));
+                    // header side valid, X-Amz-Algorithm in URL (whatever its value: the parameter is there)
+                    url.push(("X-Amz-Algorithm".into(), r.pick_str(&["AWS4-HMAC-SHA256", "AWS4-HMAC-SHA256", "", "AWS4-HMAC-SHA512", "aws4-hmac-sha256", "x"]).to_string()));
                     headers.push((b"authorization".to_vec(), auth(&good_cred, &signed, PLACEHOLDER).into_bytes()));
                 }
                 1 => {
@@ -353,7 +468,8 @@ fn build(input: &str, copies: usize, k: usize, r: &mut Rng, c: &Ctxt) -> Option<
                     url.push(("X-Amz-Date".into(), t_good.compact()));
                     url.push(("X-Amz-SignedHeaders".into(), "host".into()));
                     url.push(("X-Amz-Signature".into(), PLACEHOLDER.into()));
-                    headers.push((b"authorization".to_vec(), b"Bearer something".to_vec()));
+                    // (whatever its content: the header is there)
+                    headers.push((b"authorization".to_vec(), r.pick_bytes(&[b"Bearer something", b"", b" ", b"Basic Zm9vOmJhcg==", b"AWS4-HMAC-SHA256", b"AWS4-HMAC-SHA256 Credential=x"]).to_vec()));
                 }
                 _ => {
                     // both sides complete; the query side carries the valid signature
@@ -370,7 +486,7 @@ fn build(input: &str, copies: usize, k: usize, r: &mut Rng, c: &Ctxt) -> Option<
         }
         _ => return None,
     }
-    if input == "x-amz-date-header" || input == "date-alongside-x-amz-date" {
+    if input == "x-amz-date-header" || input == "date-alongside-x-amz-date" || input == "date-header-only" {
         eff_t = t_good;
     }
     let mut uri = path.into_bytes();
